@@ -601,6 +601,32 @@ impl<'a> Worker<'a> {
             if (self.samples.is_empty() && ops.len() >= 2.min(self.run.depth)) || (self.samples.len() < 3 && ops.len() == self.run.depth && (self.stats.states % 977 == 1)) {
                 self.samples.push(json!({"plan": plan_short(ops), "executed_layout": l.short()}));
             }
+            if self.run.c19_maps > 0 && !all_calls_ok(&obs) && crate::inv::only_expected_rejections(ops, &obs) {
+                // (viii) the builder's failure history is not an input: the plan equals the plan of the same
+                // sequence without the (rightly) rejected calls
+                let rejected: Vec<usize> = obs.calls.iter().filter(|c| c.panic.is_some()).map(|c| c.path[0]).collect();
+                let kept: Vec<Op> = ops.iter().enumerate().filter(|(i, _)| !rejected.contains(i)).map(|(_, o)| o.clone()).collect();
+                // harness ids are handed out per registration, rejected ones included: close the gaps
+                let info = PlanInfo::of(ops);
+                let gone: Vec<usize> = info.nodes.iter().filter(|n| n.parent.is_none() && rejected.contains(&n.op_index)).map(|n| n.id).collect();
+                let remap = |id: usize| id - gone.iter().filter(|g| **g < id).count();
+                let mapped: Vec<Vec<Vec<usize>>> = l.stages.iter().map(|st| st.iter().map(|g| g.iter().map(|x| remap(*x)).collect()).collect()).collect();
+                self.stats.barrier_metamorphic += 1;
+                match layout_of(&kept, &idm) {
+                    Ok(l2) => {
+                        if l2.stages != mapped {
+                            self.col.add(Finding {
+                                prop: "C19".into(),
+                                sig: "plan-depends-on-rejected-calls".into(),
+                                msg: format!("with the rejected call(s) at {:?} the plan is {} (ids closed up: {:?}), without them {} | plan: {}", rejected, l.short(), mapped, l2.short(), plan_short(ops)),
+                                replay: json!({"kind":"plan","ops":plan_json(ops)}),
+                                size: ops.len() * 100,
+                            });
+                        }
+                    }
+                    Err(e) => self.col.add(Finding { prop: "MACHINERY".into(), sig: "reduced-plan-failed".into(), msg: e, replay: json!({}), size: 0 }),
+                }
+            }
             if self.run.c19_maps > 0 && all_calls_ok(&obs) {
                 let (n, vs) = c19_check(ops, l, self.run.c19_maps);
                 self.stats.barrier_metamorphic += n;
